@@ -3,8 +3,9 @@
 // Package gcase5 is the graph case language of C05 / C06: the language of package gcase
 // extended with interrupt-before/after sets per graph level, graph state with pre/post
 // handlers, nodes that ask for InterruptAndRerun on their first attempts, nested graphs that
-// interrupt inside, and a driver that resumes a run through a bytes-only checkpoint store until
-// it completes. The Lean side of the same language is lean/EinoV/Oracle/C05GraphCase.lean.
+// interrupt inside, tag nodes added with WithInputKey / WithOutputKey, and a driver that resumes a
+// run through a bytes-only checkpoint store until it completes (one calling paradigm per call:
+// Invoke, Stream, Collect or Transform). The Lean side of the same language is lean/EinoV/Oracle/C05GraphCase.lean.
 package gcase5
 
 import (
@@ -36,6 +37,9 @@ type Node struct {
 	Body Body   `json:"body"`
 	Pre  bool   `json:"pre,omitempty"`  // state pre-handler
 	Post bool   `json:"post,omitempty"` // state post-handler
+	// tag nodes only (same meaning as in package gcase):
+	InKey  string `json:"inKey,omitempty"`  // compose.WithInputKey: the lambda takes input[InKey] (a string); a missing key is the framework's error
+	OutKey string `json:"outKey,omitempty"` // compose.WithOutputKey: the lambda returns a string, seen downstream as {OutKey: s}
 }
 
 type Branch struct {
@@ -63,7 +67,7 @@ type Case struct {
 	Input     string   `json:"input"`
 	MaxCalls  int      `json:"maxCalls"`
 	NoID      bool     `json:"noID,omitempty"`
-	Paradigms []string `json:"paradigms,omitempty"` // per call, cycling: invoke | stream (implementation side only)
+	Paradigms []string `json:"paradigms,omitempty"` // per call, cycling: invoke | stream | collect | transform (implementation side only)
 
 	// which variant of the *other* property's source fact the model is to run with (probed from the
 	// implementation under test, so that the C05 check does not depend on C06's repair and vice versa)
@@ -185,6 +189,9 @@ func postH(key string, out M, s *St) M {
 // ---------- errors of user code ----------
 
 type UserErr struct{ ID int }
+
+// MissingKeyID: the id under which the model reports "input key missing" (as Oracle/C04.lean does).
+const MissingKeyID = 9997
 
 func (e *UserErr) Error() string { return fmt.Sprintf("user-error-%d", e.ID) }
 
@@ -341,7 +348,7 @@ func Build(g *Graph, prefix string, plain bool) (*compose.Graph[M, M], error) {
 				record(ctx, path, in, false)
 				return TagBody(n.Key, in), nil
 			}
-			err = cg.AddLambdaNode(n.Key, compose.InvokableLambda(f), nopts...)
+			err = addKeyedLambda(cg, n, f, nopts)
 		}
 		if err != nil {
 			return nil, fmt.Errorf("add node %s: %w", n.Key, err)
@@ -387,6 +394,50 @@ func Build(g *Graph, prefix string, plain bool) (*compose.Graph[M, M], error) {
 		}
 	}
 	return cg, nil
+}
+
+// addKeyedLambda adds the node's lambda with the Go types its input/output keys imply (as package
+// gcase does): no keys: M -> M; OutKey: M -> string (+WithOutputKey); InKey: string -> M
+// (+WithInputKey); both: string -> string. The state handlers stay outside the key wrappers (the
+// pre-handler sees the whole map the predecessors produced, the post-handler sees {OutKey: s}).
+func addKeyedLambda(cg *compose.Graph[M, M], n Node, f func(ctx context.Context, in M) (M, error), nopts []compose.GraphAddNodeOpt) error {
+	keyed := n.Body.Op == "tag"
+	inKey, outKey := n.InKey, n.OutKey
+	if !keyed {
+		inKey, outKey = "", ""
+	}
+	// the string a keyed lambda returns: the single value of f's output map
+	val := func(m M) string {
+		for _, v := range m {
+			return fmt.Sprint(v)
+		}
+		return ""
+	}
+	switch {
+	case inKey == "" && outKey == "":
+		return cg.AddLambdaNode(n.Key, compose.InvokableLambda(f), nopts...)
+	case inKey == "":
+		g := func(ctx context.Context, in M) (string, error) {
+			o, err := f(ctx, in)
+			if err != nil {
+				return "", err
+			}
+			return val(o), nil
+		}
+		return cg.AddLambdaNode(n.Key, compose.InvokableLambda(g), append(nopts, compose.WithOutputKey(outKey))...)
+	case outKey == "":
+		g := func(ctx context.Context, in string) (M, error) { return f(ctx, M{inKey: in}) }
+		return cg.AddLambdaNode(n.Key, compose.InvokableLambda(g), append(nopts, compose.WithInputKey(inKey))...)
+	default:
+		g := func(ctx context.Context, in string) (string, error) {
+			o, err := f(ctx, M{inKey: in})
+			if err != nil {
+				return "", err
+			}
+			return val(o), nil
+		}
+		return cg.AddLambdaNode(n.Key, compose.InvokableLambda(g), append(nopts, compose.WithInputKey(inKey), compose.WithOutputKey(outKey))...)
+	}
 }
 
 // ---------- outcome (same shape as the oracle's) ----------
@@ -448,6 +499,14 @@ func Classify(err error) ResultJ {
 	case errors.As(err, &be):
 		id := be.ID
 		r.Err = &ErrJ{C: "branch", ID: &id}
+	case strings.Contains(err.Error(), "cannot find input key: "),
+		strings.Contains(err.Error(), "stream reader is empty, concat fail"):
+		// the framework's error of a WithInputKey node whose input map lacks the key: value mode
+		// reports the key; in stream mode the filtered input stream of the node is empty and the
+		// node fails when it concatenates it (same node path; Invoke/Stream agreement of the message
+		// is not this property's subject)
+		id := MissingKeyID
+		r.Err = &ErrJ{C: "user", ID: &id}
 	case errors.Is(err, compose.ErrExceedMaxSteps):
 		r.Err = &ErrJ{C: "maxSteps"}
 	case strings.Contains(err.Error(), "unknown node: end"):
@@ -456,15 +515,31 @@ func Classify(err error) ResultJ {
 		r.Err = &ErrJ{C: "noTasks"}
 	case strings.Contains(err.Error(), "(mergeMap)") || strings.Contains(err.Error(), "(mergeValues") || strings.Contains(err.Error(), "(mergeStream)"):
 		r.Err = &ErrJ{C: "merge"}
+	case strings.Contains(err.Error(), "failed to convert checkpoint"):
+		// the checkpoint of an interrupt could not be assembled (stream -> value conversion of
+		// channel contents / pending inputs): the call fails instead of reporting the interrupt
+		r.Err = &ErrJ{C: "cpConvert:" + firstLine(err.Error())}
+	case strings.Contains(err.Error(), "restore checkpoint fail"):
+		// a stored checkpoint could not be turned back into the run's values (value -> stream)
+		r.Err = &ErrJ{C: "cpRestore:" + firstLine(err.Error())}
 	default:
 		r.Err = &ErrJ{C: "other:" + firstLine(err.Error())}
 	}
 	return r
 }
 
+// firstLine: the first line of the message; when that is only a bracketed tag ("[NodeRunError]"),
+// the line after it as well.
 func firstLine(s string) string {
 	if i := strings.Index(s, "\n"); i >= 0 {
-		s = s[:i]
+		head, rest := s[:i], s[i+1:]
+		if strings.HasPrefix(head, "[") && strings.HasSuffix(strings.TrimSpace(head), "]") {
+			if j := strings.Index(rest, "\n"); j >= 0 {
+				rest = rest[:j]
+			}
+			head += " " + strings.TrimSpace(rest)
+		}
+		s = head
 	}
 	if len(s) > 160 {
 		s = s[:160]
@@ -594,9 +669,15 @@ func (rn *Runnable) Call(input string, id *string, paradigm string) (*CallJ, str
 	finished := false
 	if panicked, pv := vh.Safely(func() {
 		finished = vh.WithTimeout(20*time.Second, func() {
-			if paradigm == "stream" {
+			if paradigm == "collect" {
+				res, runErr = rn.R.Collect(ctx, schema.StreamReaderFromArray([]M{{"in": input}}), opts...)
+			} else if paradigm == "stream" || paradigm == "transform" {
 				var sr *schema.StreamReader[M]
-				sr, runErr = rn.R.Stream(ctx, M{"in": input}, opts...)
+				if paradigm == "transform" {
+					sr, runErr = rn.R.Transform(ctx, schema.StreamReaderFromArray([]M{{"in": input}}), opts...)
+				} else {
+					sr, runErr = rn.R.Stream(ctx, M{"in": input}, opts...)
+				}
 				if runErr == nil {
 					res = M{}
 					for {
